@@ -48,6 +48,7 @@ pub struct Acc {
     pub violations: Vec<Violation>,
     pub violation_count: u64,
     pub samples: Vec<(u64, Value)>, // (priority key, sample)
+    pub sample_worst: u64,
 }
 
 pub const MAX_VIOLATIONS_KEPT: usize = 400;
@@ -90,6 +91,23 @@ impl Acc {
         if self.samples.len() > 64 {
             self.samples.sort_by_key(|s| s.0);
             self.samples.truncate(6);
+        }
+    }
+    /// keep the sample only if it would be among the 6 smallest keys seen by this worker
+    /// (the JSON is built lazily); guarantees at least one sample whenever it is called
+    #[inline]
+    pub fn maybe_sample<F: FnOnce() -> Value>(&mut self, key: u64, f: F) {
+        if self.samples.len() < 6 || key < self.sample_worst {
+            self.samples.push((key, f()));
+            if self.samples.len() > 32 {
+                self.samples.sort_by_key(|s| s.0);
+                self.samples.truncate(6);
+            }
+            if self.samples.len() >= 6 {
+                let mut ks: Vec<u64> = self.samples.iter().map(|s| s.0).collect();
+                ks.sort();
+                self.sample_worst = ks[5];
+            }
         }
     }
     pub fn merge(&mut self, o: Acc) {
